@@ -1,5 +1,5 @@
 /*UNIT
-{"props": ["C04"], "src": ["lib/ipcs.c"], "mode": "plain", "kind": "proved",
+{"props": ["C04", "C03"], "src": ["lib/ipcs.c"], "mode": "plain", "kind": "proved",
  "functions": ["qb_ipcs_connection_unref", "qb_ipcs_connection_ref", "qb_ipcs_unref (inlined)"],
  "stubs": ["connection_destroyed callback (recorded; asserts the connection is not freed yet; records list membership)", "funcs.disconnect (recorded)", "qb_atomic_int_* (sequential)", "free (observed)"],
  "drops": ["qb_util_log/qb_util_perror diagnostics compiled out (stubs/nolog.h)"],
